@@ -123,6 +123,7 @@ type hostWorld struct {
 	fc                 types.V2FileContract
 	roots              []types.Hash256
 	prices             proto4.HostPrices
+	unrevisable        bool
 }
 
 func keyFromByte(b byte) types.PrivateKey {
@@ -141,7 +142,13 @@ func rootN(k int) (h types.Hash256) {
 func newHostWorld(n int) *hostWorld {
 	w := &hostWorld{hostKey: keyFromByte(1), renterKey: keyFromByte(2)}
 	w.chain = &vChain{tip: types.ChainIndex{Height: 50, ID: types.BlockID{7}}}
-	w.contractor = testutil.VerifNewContractor(w.chain.tip)
+	// the contract may be past its proof height: then it must not be revised
+	w.unrevisable = vapi.Bool("past-proof-height")
+	ctip := w.chain.tip
+	if w.unrevisable {
+		ctip.Height = 100
+	}
+	w.contractor = testutil.VerifNewContractor(ctip)
 	w.sectors = &vSectors{has: map[types.Hash256]bool{}}
 	w.server = rhp4.NewServer(w.hostKey, w.chain, w.contractor, nil, vSettings{}, w.sectors)
 	for i := 0; i < n; i++ {
@@ -358,7 +365,7 @@ func verifFree(tag string) {
 		return
 	}
 	vapi.Reach("freed")
-	vapi.Assert(tag+".gate", !badPrices && !badChallenge && wellFormed && second == 0)
+	vapi.Assert(tag+".gate", !badPrices && !badChallenge && wellFormed && second == 0 && !w.unrevisable)
 	vapi.Assert(tag+".model", sameRoots(after.roots, swapRemove(w.roots, indices)) || !descendingDistinct(indices))
 	checkRevision(tag, before.fc, after.fc, w.prices.RPCFreeSectorsCost(len(indices)).RenterCost())
 }
@@ -370,4 +377,8 @@ func descendingDistinct(idx []uint64) bool {
 		}
 	}
 	return true
+}
+
+func rhp4NewServer(w *hostWorld) *rhp4.Server {
+	return rhp4.NewServer(w.hostKey, w.chain, w.contractor, nil, vSettings{}, w.sectors)
 }
